@@ -96,3 +96,28 @@ def colkey(m, ids):
 def request(cmd, m, ids, args):
     t = err_inst_tokens(m, ids, args) if cmd in ("klae", "errwmax") else kmpe_inst_tokens(m, ids, args)
     return cmd + " " + common.toks(t)
+
+
+def theorem_premises(ctx, engine, cmd, m, ids, args):
+    """Is this E1 instance inside the premises of the optimality theorems (Props/C07.v C07_klae_optimal_checked,
+    Props/C08.v C08_kmpe_optimal_checked)?  The theorems cover the LP without given weights / path-length factors and with
+    allow_empty_paths = False; for those instances the extracted verified checker klae_premises_b / kmpe_premises_b
+    (well-formed acyclic s-t graph, constraints on edges, weight domain, integer lengths) must answer 1."""
+    import networkx as nx
+    if args.get("solution_weights_superset") is not None or m.allow_empty_paths or (cmd == "kmpepremises" and args.get("path_length_factors")):
+        ctx.count(engine, "outside_optimality_theorems(given weights / length factors)")
+        return
+    st = m.G
+    try:
+        order = list(nx.topological_sort(st))
+    except Exception:
+        order = list(st.nodes())
+    t = err_inst_tokens(m, ids, args) if cmd == "klaepremises" else kmpe_inst_tokens(m, ids, args)
+    t = t + [len(order), [ids[v] for v in order]]
+    out = ctx.model.run([cmd + " " + common.toks(t)])[0].strip()
+    ctx.count(engine, "optimality_premises_checked")
+    if out != "1":
+        ctx.count(engine, "optimality_premises_failed")
+        ctx.report(f"{engine}: the instance handed to the encoder is outside the premises of the optimality theorem ({cmd} = {out})",
+                   {"engine": engine, "edges": [[str(u), str(v), dict(d)] for u, v, d in st.edges(data=True)],
+                    "args": {k: str(v) for k, v in args.items() if k != "G"}}, concrete=False)
